@@ -19,6 +19,8 @@ func main() {
 		verifyCmd(os.Args[2:])
 	case "check":
 		checkCmd(os.Args[2:])
+	case "annotate-loops":
+		annotateLoopsCmd(os.Args[2:])
 	default:
 		fmt.Fprintln(os.Stderr, "unknown command", os.Args[1])
 		os.Exit(2)
@@ -91,4 +93,82 @@ func verifyCmd(args []string) {
 	if fail {
 		os.Exit(1)
 	}
+}
+
+// annotate-loops: tag every "//@ loop #k" line of the contract files with the source text of the loop header it
+// stands for ("over <text>"), so that the annotations follow their loop when loops are inserted or removed before it.
+// Run after adding loop annotations; lines that already carry a tag are left alone unless -refresh is given.
+func annotateLoopsCmd(args []string) {
+	fs := flag.NewFlagSet("annotate-loops", flag.ExitOnError)
+	repo := fs.String("repo", "/repo", "repository root")
+	specs := fs.String("specs", "/verif/specs", "spec directory")
+	pkgs := fs.String("pkgs", "./...", "package patterns (comma separated)")
+	refresh := fs.Bool("refresh", false, "rewrite existing tags as well")
+	fs.Parse(args)
+	prog, err := vc.Load(*repo, strings.Split(*pkgs, ","))
+	if err != nil {
+		fmt.Fprintln(os.Stderr, "load:", err)
+		os.Exit(2)
+	}
+	if err := prog.LoadContracts(*specs); err != nil {
+		fmt.Fprintln(os.Stderr, "contracts:", err)
+		os.Exit(2)
+	}
+	edits := map[string]map[int]string{} // file -> line -> tag
+	for key, ctr := range prog.Spec.Contracts {
+		if len(ctr.Loops) == 0 {
+			continue
+		}
+		fn := prog.FindFunc(key)
+		if fn == nil {
+			continue
+		}
+		prog.BuildFor(fn)
+		texts := vc.LoopTexts(fn)
+		if texts == nil {
+			fmt.Fprintf(os.Stderr, "skip %s: loops of the syntax tree and of the SSA form do not pair up\n", key)
+			continue
+		}
+		for ord, sp := range ctr.Loops {
+			if ord < 1 || ord > len(texts) || (sp.Over != "" && !*refresh) {
+				continue
+			}
+			i := strings.LastIndex(sp.Src, ":")
+			if i < 0 {
+				continue
+			}
+			var line int
+			fmt.Sscanf(sp.Src[i+1:], "%d", &line)
+			file := sp.Src[:i]
+			if edits[file] == nil {
+				edits[file] = map[int]string{}
+			}
+			edits[file][line] = texts[ord-1]
+		}
+	}
+	n := 0
+	for file, lines := range edits {
+		b, err := os.ReadFile(file)
+		if err != nil {
+			fmt.Fprintln(os.Stderr, err)
+			continue
+		}
+		ls := strings.Split(string(b), "\n")
+		for ln, tag := range lines {
+			if ln < 1 || ln > len(ls) {
+				continue
+			}
+			l := ls[ln-1]
+			if !strings.HasPrefix(strings.TrimSpace(l), "//@ loop #") {
+				continue
+			}
+			if i := strings.Index(l, " over "); i > 0 {
+				l = l[:i]
+			}
+			ls[ln-1] = strings.TrimRight(l, " ") + " over " + tag
+			n++
+		}
+		os.WriteFile(file, []byte(strings.Join(ls, "\n")), 0o644)
+	}
+	fmt.Printf("tagged %d loop annotations in %d files\n", n, len(edits))
 }
